@@ -6,8 +6,8 @@ MC : SvgPathLaws  - the algebraic identities a path minifier relies on (abs<->re
                     by <= MaxN commands over every command letter (both cases), with the side
                     conditions under which they keep what a FOLLOWING smooth command reflects.
      SvgPathDesign- design model: the rewrite decisions of copyInstruction (its own cursor and control
-                    point memory) refine the interpreter step by step; the three decision-level known
-                    findings are guards, and TLC finds their counterexamples when a guard is lifted.
+                    point memory, one-letter look-ahead) refine the interpreter step by step; the decisions
+                    before the fix commits are switches = wrong designs in which TLC must find the counterexample.
      SvgPathGen   - token-level generator automaton of path data (carries the interpreter state);
                     exhaustive to MaxTok tokens, random walks (-simulate) to 120 tokens.
      SvgDocGen    - token-level generator automaton of documents (nesting, attributes, text).
@@ -15,6 +15,9 @@ MC : SvgPathLaws  - the algebraic identities a path minifier relies on (abs<->re
 RUN: harness/cmd/c05 renders nothing itself: it gets bytes, calls the real public API (ONE minify.M with
      ONE registered *svg.Minifier and *html.Minifier per session; inline SVG goes through the HTML minifier)
      and projects input and output with encoding/xml / x/net/html.
+     SvgPathPrint - byte-level prediction of the shortener's output for integer path data (decisions of
+                    SvgPathDecide + number spelling, separators, letter elision, shorter twin): DRIFT comparison
+                    with the real output bytes on every such trace line (information, never a verdict).
 TV : C05Trace evaluates, in TLC, PathVerdict (PathGrammar on the output bytes, Interp on both
      sides, PathEq on the normalised absolute segments) for every `d` attribute and the document
      clauses of SvgDoc (tree, prefixed attributes, plain attributes, values, rendered text).
@@ -33,27 +36,31 @@ PID = 'C05'
 # pinned by an exact witness in known/C05.ndjson and replayed on every run).  C05_INCLUDE=tag,tag
 # lifts exclusions (used to validate proposed patches in a private worktree).
 EXCLUSIONS = {
-    'z-draw': 'closepath directly followed by a drawing command (anything but moveto/closepath)',
-    'deg-smooth': 'smooth curveto directly after a curve whose control points coincide exactly with its end points',
-    'zeroL-smooth': 'lineto (or curve that simplifies to a line) of length zero directly after a curve',
-    'exp100': 'number whose shortest form has an exponent that ends in 00 (1e100)',
-    'xlink-attr': 'xlink: attributes',
     'xml-attr': 'xml: attributes (xml:space, xml:lang)',
     'text-join': 'blank at the edge of character data inside a text element next to a child element',
     'defs-1attr': 'childless defs element with exactly one attribute',
-    'svg-prefix-end': 'svg:-prefixed element with a separate end tag',
-    'charref-lt-amp': 'numeric character reference to < or & (&#60; &#38;)',
     'numeric-string': 'id/class/href-like attribute whose whole value reads as a number with optional unit',
     'trailing-dot-flag': 'number written with a trailing dot (5.) directly before an arc flag, or followed by an exponent (5.e1)',
-    'foreignobject-empty': 'foreignObject element with an end tag but no content',
     'foreignobject-attr': 'attribute value with a blank run or a character reference inside foreignObject',
     'inline-nested-svg': 'svg element nested in inline SVG, self-closed inline root (HTML lexer of the parse library ends the SVG at the first </svg)',
+}
+# Constructs that were excluded while a finding was open and are generated again since the fix commit
+# (known/C05.txt `fixed:` lines); their witnesses stay in known/C05.ndjson as ordinary regression cases.
+FIXED = {
+    'z-draw': '06800a3 closepath followed by a drawing command',
+    'deg-smooth': 'ed5d06b smooth curveto directly after a degenerate curve',
+    'zeroL-smooth': '2008ad3 zero-length lineto (or curve that simplifies to one) directly after a curve',
+    'exp100': '652de3f number whose shortest form has an exponent ending in 00 (1e100)',
+    'svg-prefix-end': '929401b svg:-prefixed element with a separate end tag',
+    'xlink-attr': '2c322a0 xlink: attributes',
+    'charref-lt-amp': '1882673 numeric character reference to < or &',
+    'foreignobject-empty': '53ae1e9 foreignObject element with an end tag but no content',
 }
 INCLUDE = set(x for x in os.environ.get('C05_INCLUDE', '').split(',') if x)
 
 
 def excluded(tag):
-    return tag not in INCLUDE
+    return tag in EXCLUSIONS and tag not in INCLUDE
 
 
 # --------------------------------------------------------------------------------------------
@@ -523,7 +530,8 @@ def path_pairs_cfg(ctx):
     return write_cfg(ctx, 'SvgPathGen_run_pairs.cfg', '\n'.join([
         'SPECIFICATION Spec',
         'CONSTANTS MaxTok = 15', 'MaxGroups = 3', 'Letters <- LettersCurvePairs', 'Modes <- ModesForced',
-        'Coords <- CoordsTiny', 'Radii <- RadiiSmall', 'Rots <- RotsSmall',
+        'Coords <- CoordsTiny', 'MCoords <- %s' % ('CoordsZero' if ctx.quick() else 'CoordsTiny'),
+        'Radii <- RadiiSmall', 'Rots <- RotsSmall',
         'ExclZ = %s' % ('TRUE' if excluded('z-draw') else 'FALSE'),
         'ExclDeg = %s' % ('TRUE' if excluded('deg-smooth') else 'FALSE'),
         'ExclZeroL = %s' % ('TRUE' if excluded('zeroL-smooth') else 'FALSE'),
@@ -540,12 +548,14 @@ def path_gen_cfg(ctx, maxtok, sim, big=False):
         'CONSTANTS MaxTok = %d' % maxtok,
         'MaxGroups = 1000', 'Letters <- LettersAll', 'Modes <- %s' % ('ModesAll' if sim else 'ModesFree'),
         'Coords <- %s' % ('CoordsSim' if big else 'CoordsSmall'),
+        'MCoords <- %s' % ('CoordsSim' if big else 'CoordsSmall'),
         'Radii <- %s' % ('RadiiSim' if big else 'RadiiSmall'),
         'Rots <- %s' % ('RotsSim' if big else 'RotsSmall'),
         'ExclZ = %s' % ('TRUE' if excluded('z-draw') else 'FALSE'),
         'ExclDeg = %s' % ('TRUE' if excluded('deg-smooth') else 'FALSE'),
         'ExclZeroL = %s' % ('TRUE' if excluded('zeroL-smooth') else 'FALSE'),
-        'INVARIANTS InRange %s' % ('Emit' if sim else 'Counters Incremental EmitAcc'),
+        # (Incremental re-interprets every accepting token string from scratch: thorough tier only)
+        'INVARIANTS InRange %s' % ('Emit' if sim else ('Counters EmitAcc' if ctx.quick() else 'Counters Incremental EmitAcc')),
         'CHECK_DEADLOCK FALSE', '']))
 
 
@@ -592,16 +602,16 @@ def generate(ctx):
         # design model of the shortener's decisions refines the interpreter (D => A)
         design=lambda: vlib.tlc(ctx, 'SvgPathDesign', 'SvgPathDesign_quick.cfg' if q else 'SvgPathDesign_thorough.cfg',
                                 workers=w, heap='4g', timeout=3000),
-        design2=lambda: (vlib.tlc(ctx, 'SvgPathDesign', 'SvgPathDesign_quick.cfg', workers=w, heap='4g', timeout=3000) if not q else None),
+        design2=lambda: (vlib.tlc(ctx, 'SvgPathDesign', 'SvgPathDesign_wide.cfg', workers=w, heap='4g', timeout=3000) if not q else None),
         pb=lambda: vlib.tlc(ctx, 'SvgPathGen', cfg_pb, workers=w, heap='6g', timeout=3000),
-        ps=lambda: vlib.tlc(ctx, 'SvgPathGen', cfg_ps, workers=1, simulate='num=%d' % (120 if q else 1500), depth=125,
+        ps=lambda: vlib.tlc(ctx, 'SvgPathGen', cfg_ps, workers=1, simulate='num=%d' % (100 if q else 1500), depth=125,
                             seed=ctx.seed, timeout=1800),
         pl=lambda: vlib.tlc(ctx, 'SvgPathGen', cfg_pl, workers=1, simulate='num=%d' % (30 if q else 400), depth=125,
                             seed=ctx.seed, timeout=1800),
         db=lambda: vlib.tlc(ctx, 'SvgDocGen', cfg_db, workers=min(4, w), heap='4g', timeout=3000),
         pp=lambda: vlib.tlc(ctx, 'SvgPathGen', cfg_pp, workers=max(2, w // 2), heap='4g', timeout=3000),
         cs=lambda: vlib.tlc(ctx, 'SvgCallSeq', 'SvgCallSeq.cfg', workers=1, timeout=600),
-        ds=lambda: vlib.tlc(ctx, 'SvgDocGen', cfg_ds, workers=1, simulate='num=%d' % (400 if q else 4000), depth=45,
+        ds=lambda: vlib.tlc(ctx, 'SvgDocGen', cfg_ds, workers=1, simulate='num=%d' % (300 if q else 4000), depth=45,
                             seed=ctx.seed, timeout=1800),
     )
     with ThreadPoolExecutor(max_workers=11) as ex:
@@ -648,19 +658,19 @@ def generate(ctx):
 
 
 def design_sensitivity(ctx):
-    """Self-test of the design model (thorough tier): with one guard lifted TLC must find the
-    decision-level counterexample of the corresponding known finding.  Never a verdict: a model that
-    does not see the defect any more is an infrastructure problem (the model drifted from the code or
-    the defect was fixed - then the guard and the exclusion can go)."""
+    """Vacuity guards of the design model (thorough tier): with one of the OLD decisions switched back in
+    (FixZ / FixDeg / FixZeroL = FALSE: the code before the fix commits; ForgetCp = FALSE: the control point
+    of a curve that became a line is kept) the design is wrong and TLC must find the counterexample to
+    Refines.  Never a verdict: a model in which the invariant cannot fail is an infrastructure problem."""
     from concurrent.futures import ThreadPoolExecutor
-    names = ['noZ', 'noDeg', 'noZeroL']
+    names = ['noZ', 'noDeg', 'noZeroL', 'noForget']
 
     def one(nm):
         try:
             return vlib.tlc(ctx, 'SvgPathDesign', 'SvgPathDesign_%s.cfg' % nm, workers=2, heap='3g', timeout=1500)
         except vlib.Infra:
             return None
-    with ThreadPoolExecutor(max_workers=3) as ex:
+    with ThreadPoolExecutor(max_workers=4) as ex:
         futs = []
         for nm in names:
             futs.append(ex.submit(one, nm))
@@ -673,7 +683,7 @@ def design_sensitivity(ctx):
         elif 'Refines' in r['invariant_violations']:
             out[nm] = 'counterexample found'
         elif r['completed']:
-            raise vlib.Infra('design model SvgPathDesign_%s.cfg: guard lifted but no counterexample (model drifted)' % nm)
+            raise vlib.Infra('design model SvgPathDesign_%s.cfg: wrong design but no counterexample (Refines is vacuous)' % nm)
         else:
             out[nm] = 'error'
     ctx.coverage['design_guard_sensitivity'] = out
@@ -727,7 +737,7 @@ def make_cases(ctx):
 
     # exhaustive paths: every enumerated token string in one seeded style (quick: a seeded share of
     # them), batched into documents of 20 paths (the minifier reuses one PathData per document)
-    share = vlib.sample(pex, 10000, rnd) if q else pex
+    share = vlib.sample(pex, 7000, rnd) if q else pex
     rendered = [rendered_path(t, rnd) for t in share]
     if not q:
         rendered += [rendered_path(t, rnd, style=STYLES[3], dec=1) for t in pex[::3]]
@@ -735,17 +745,17 @@ def make_cases(ctx):
         for _ in range(2 if q else 4):
             rendered.append(rendered_path(t, rnd))
     # curve pairs from forcing templates (exhaustive over {0,1}; quick: a seeded share)
-    for t in (vlib.sample(ppairs, 6000, rnd) if q else ppairs):
+    for t in (vlib.sample(ppairs, 4000, rnd) if q else ppairs):
         rendered.append(rendered_path(t, rnd))
     rnd.shuffle(rendered)
     for i in range(0, len(rendered), 20):
         mode = 'inline' if (i // 20) % 4 == 3 else 'standalone'
         add(dict(kind='path', mode=mode, gen=True, paths=[list(b) for b in rendered[i:i + 20]]))
-    for b in vlib.sample(rendered, 300 if q else 3000, rnd):
+    for b in vlib.sample(rendered, 150 if q else 3000, rnd):
         add(dict(kind='path', mode='standalone', gen=True, paths=[list(b)]))
     # documents
     ndoc = 0
-    for t in (vlib.sample(dex, 1500, rnd) if q else dex):
+    for t in (vlib.sample(dex, 1000, rnd) if q else dex):
         mode = 'inline' if ndoc % 3 == 2 else 'standalone'
         add(dict(kind='doc', mode=mode, css=False, gen=True, src=list(render_doc(t, rnd, mode, 3))))
         ndoc += 1
@@ -793,13 +803,14 @@ def run_driver(ctx, exe, cases, tag):
     tout = ctx.path('run', tag + '-trace.ndjson')
     with open(cin, 'w') as f:
         for c in cases:
-            f.write(json.dumps({k: v for k, v in c.items() if k not in ('origin', 'relfile', 'tag', 'clause', 'what')},
+            f.write(json.dumps({k: v for k, v in c.items() if k not in ('origin', 'relfile', 'tag', 'clause', 'what', 'orig_id')},
                                separators=(',', ':')) + '\n')
     vlib.run([exe, cin, tout], timeout=3000)
     return [l.rstrip('\n') for l in open(tout) if l.strip()]
 
 
 MACHINERY = 'machinery'
+DRIFT = []          # trace lines on which the byte-level design model and the code disagree (this run)
 
 
 def validate(ctx, lines):
@@ -815,8 +826,16 @@ def validate(ctx, lines):
         send.append(l)
     accepted, rejects = vlib.tlc_trace(ctx, 'C05Trace', 'C05Trace.cfg', send, heap='3g', timeout=3000, min_per_shard=150)
     why = {}
+    drift = []
     for k, w in rejects:
+        if w == 'drift':
+            # design model SvgPathPrint predicted other output bytes: information, never a verdict
+            drift.append(idx[k])
+            continue
         why.setdefault(idx[k], []).append(w)
+    DRIFT.extend(lines[i] for i in drift)
+    # (tlc_trace counts a line as accepted when it has no REJECT at all)
+    accepted += len([i for i in set(drift) if i not in why])
     for i, ws in why.items():
         for w in ws:
             if w.startswith(MACHINERY):
@@ -889,6 +908,9 @@ def confirm(ctx, exe, cases, lines, why):
                 out.append(dict(kind='path', mode=e['mode'], gen=False, paths=c['paths'][:e['sub'] + 1], what=('prefix', i)))
         else:
             out.append(dict(c, what=('doc', i)))
+        if e['kind'] == 'path' and 'path-lost' in why.get(i, []) and c['kind'] == 'path':
+            # the whole document failed (error, panic, output not readable): the witness is the document
+            out.append(dict(c, what=('whole', i)))
         for x in out:
             x['session'] = 0
             x['history'] = history or []
@@ -896,6 +918,7 @@ def confirm(ctx, exe, cases, lines, why):
 
     def rerun(redo, tag):
         for k, c in enumerate(redo):
+            c.setdefault('orig_id', c.get('id'))
             c['id'] = k
         rl = run_driver(ctx, exe, redo, tag)
         _, why2, _ = validate(ctx, rl)
@@ -913,6 +936,16 @@ def confirm(ctx, exe, cases, lines, why):
             kind, i = c['what'][0], c['what'][1]
             clauses = why2[j]
             hist = c.get('history') or []
+            if kind == 'whole':
+                if i in done or ('whole', c['orig_id']) in seen:
+                    continue
+                seen.add(('whole', c['orig_id']))
+                ident = dict(kind='path', mode=e['mode'], d=bytes(c['paths'][-1]).decode('latin1'),
+                             after=[bytes(p).decode('latin1') for p in c['paths'][:-1]])
+                ctx.report(ident, '%s: document of %d paths: %s [%s]' % (e['mode'], len(c['paths']), e['err'][:300], '/'.join(clauses)),
+                           replay_obj=dict(line=dict(e, **{'in': [], 'out': []})))
+                reported += 1
+                continue
             if kind == 'single':
                 done.add(i)
                 ident = ident_path(e['mode'], bytes(e['in']).decode('latin1'))
@@ -1001,7 +1034,9 @@ def run(ctx):
     lines = run_driver(ctx, exe, cases, 'main')
     vlib.log('C05 driver: %d cases, %d lines, %.1fs' % (len(cases), len(lines), vlib.time.time() - t0))
     t0 = vlib.time.time()
+    del DRIFT[:]
     accepted, why, skipped = validate(ctx, lines)
+    drift_main = list(DRIFT)
     vlib.log('C05 trace validation: %.1fs, %d rejected lines' % (vlib.time.time() - t0, len(why)))
     # statistics measured on the recorded lines
     nontrivial, samples = set(), []
@@ -1034,6 +1069,13 @@ def run(ctx):
     if not samples:
         e = json.loads(lines[0])
         samples.append(dict(kind=e['kind'], **{'in': bytes(e.get('in', [])).decode('latin1'), 'out': bytes(e.get('out', [])).decode('latin1')}))
+    nints = sum(1 for l in lines if l.startswith('{"kind":"path"') and '"ints":true' in l[:200])
+    ctx.coverage['drift_compared_paths'] = nints
+    ctx.coverage['drift'] = len(drift_main)
+    if drift_main:
+        ctx.coverage['drift_samples'] = [dict(**{'in': bytes(json.loads(l)['in']).decode('latin1'),
+                                                 'out': bytes(json.loads(l)['out']).decode('latin1')}) for l in drift_main[:5]]
+        vlib.log('C05 DRIFT: design model SvgPathPrint predicts other bytes on %d lines (information only)' % len(drift_main))
     ctx.coverage.update(dict(
         traces_validated_against_impl=accepted,
         evaluations=len(lines),
